@@ -33,23 +33,60 @@ def writer_escape(model: Model):
 
 
 def callback_format(model: Model, fi: FuncInfo, cb: ast.expr) -> Optional[Tuple[str, str]]:
-    """(prefix, format-spec) of a callback `return f"<prefix>{ord(m.group(0)):<spec>}"`."""
+    """(prefix, format-spec) of an escaping callback, written as  f"<prefix>{ord(m.group(0)):<spec>}"  (optionally .encode()),
+    "<prefix>%<spec>" % ord(m.group(0)),  b"<prefix>%<spec>" % m.group(0)[0]  or  "<prefix>{:<spec>}".format(ord(m.group(0)))."""
     if not isinstance(cb, ast.Name):
         return None
+    node = None
     for n in ast.walk(fi.node):
         if isinstance(n, ast.FunctionDef) and n.name == cb.id:
-            rets = [r for r in ast.walk(n) if isinstance(r, ast.Return)]
-            if len(rets) != 1:
-                return None
-            v = rets[0].value
-            if isinstance(v, ast.Call) and isinstance(v.func, ast.Attribute) and v.func.attr == "encode":
-                v = v.func.value
-            if isinstance(v, ast.JoinedStr) and len(v.values) == 2 and isinstance(v.values[0], ast.Constant) and isinstance(v.values[1], ast.FormattedValue):
-                fv = v.values[1]
-                spec = fv.format_spec.values[0].value if fv.format_spec is not None and fv.format_spec.values and isinstance(fv.format_spec.values[0], ast.Constant) else ""
-                inner = fv.value
-                if isinstance(inner, ast.Call) and isinstance(inner.func, ast.Name) and inner.func.id == "ord":
-                    return v.values[0].value, spec
+            node = n
+    if node is None:
+        q = model.resolve_name(fi.module, cb.id)
+        f2 = model.functions.get(q) if q else None
+        node = f2.node if f2 is not None and isinstance(f2.node, ast.FunctionDef) else None
+    if node is None or not node.args.args:
+        return None
+    mparam = node.args.args[0].arg
+    rets = [r for r in ast.walk(node) if isinstance(r, ast.Return)]
+    if len(rets) != 1:
+        return None
+    v = rets[0].value
+    if isinstance(v, ast.Call) and isinstance(v.func, ast.Attribute) and v.func.attr == "encode":
+        v = v.func.value
+
+    def is_ord_of_match(e: ast.expr) -> bool:
+        """ord(m.group(0)) / ord(m.group()) / m.group(0)[0] / m[0][0]  (for a bytes subject the element is the code)"""
+        def is_group0(x: ast.expr) -> bool:
+            if isinstance(x, ast.Call) and isinstance(x.func, ast.Attribute) and x.func.attr == "group" and norm(x.func.value) == mparam:
+                return not x.args or (len(x.args) == 1 and isinstance(x.args[0], ast.Constant) and x.args[0].value == 0)
+            return isinstance(x, ast.Subscript) and norm(x.value) == mparam and isinstance(x.slice, ast.Constant) and x.slice.value == 0
+        if isinstance(e, ast.Call) and isinstance(e.func, ast.Name) and e.func.id == "ord" and len(e.args) == 1:
+            return is_group0(e.args[0])
+        return isinstance(e, ast.Subscript) and isinstance(e.slice, ast.Constant) and e.slice.value == 0 and is_group0(e.value)
+
+    def text(c) -> Optional[str]:
+        if isinstance(c, ast.Constant) and isinstance(c.value, (str, bytes)):
+            return c.value if isinstance(c.value, str) else c.value.decode("latin-1")
+        return None
+    if isinstance(v, ast.JoinedStr) and len(v.values) == 2 and isinstance(v.values[0], ast.Constant) and isinstance(v.values[1], ast.FormattedValue):
+        fv = v.values[1]
+        spec = fv.format_spec.values[0].value if fv.format_spec is not None and fv.format_spec.values and isinstance(fv.format_spec.values[0], ast.Constant) else ""
+        if is_ord_of_match(fv.value):
+            return v.values[0].value, spec
+        return None
+    if isinstance(v, ast.BinOp) and isinstance(v.op, ast.Mod) and text(v.left) is not None:
+        t = text(v.left)
+        arg = v.right.elts[0] if isinstance(v.right, ast.Tuple) and len(v.right.elts) == 1 else v.right
+        if t.count("%") == 1 and is_ord_of_match(arg):
+            pre, spec = t.split("%")
+            return pre, spec
+        return None
+    if isinstance(v, ast.Call) and isinstance(v.func, ast.Attribute) and v.func.attr == "format" and text(v.func.value) is not None and len(v.args) == 1 and not v.keywords:
+        t = text(v.func.value)
+        m = __import__("re").fullmatch(r"([^{}]*)\{(?:0)?:([^{}]*)\}", t)
+        if m and is_ord_of_match(v.args[0]):
+            return m.group(1), m.group(2)
     return None
 
 
